@@ -157,6 +157,12 @@ func (m *Manager) Allocate(ctx context.Context, cni *daemon.CNI, req *AllocReque
 
 	wg := sync.WaitGroup{}
 
+	// resources received after the collector has gone (ctx done), returned to the caller for roll back
+	var (
+		droppedLock sync.Mutex
+		dropped     NetworkResources
+	)
+
 	var traces []Trace
 
 	m.Lock()
@@ -214,6 +220,9 @@ func (m *Manager) Allocate(ctx context.Context, cni *daemon.CNI, req *AllocReque
 
 				select {
 				case <-ctx.Done():
+					droppedLock.Lock()
+					dropped = append(dropped, resp.NetworkConfigs...)
+					droppedLock.Unlock()
 				case resultCh <- resp.NetworkConfigs:
 				}
 			}
@@ -226,6 +235,7 @@ func (m *Manager) Allocate(ctx context.Context, cni *daemon.CNI, req *AllocReque
 	// already send , close it
 	close(resultCh)
 	<-done
+	result = append(result, dropped...)
 
 	if err == nil && ctx.Err() != nil {
 		err = ctx.Err()
